@@ -40,7 +40,7 @@ def generate(rng, tier):
     backend = 'simstream' if r < 0.5 else rng.choice(ALL_BACKENDS)
     short = rng.getrandbits(32) if (backend in ('simstream', 'simpath') and rng.random() < 0.6) else None
     case = {'spec': spec, 'backend': backend, 'short_seed': short, 'debug_log': rng.random() < 0.1,
-            'raw_ts': raw_ts, 'pathlib': rng.random() < 0.3, 'threads': None}
+            'raw_ts': raw_ts, 'pathlib': rng.random() < 0.3, 'threads': None, 'rewrite': rng.random() < 0.06}
     if len(_w.data) < 3000 and rng.random() < 0.04:
         # two threads, each reading its own file with TdmsFile.read (a thread pool mapping TdmsFile.read over paths):
         # nothing is shared by the caller; the interleaving is decided by a seeded scheduler
@@ -136,6 +136,24 @@ def execute(case):
         res.violations += compare_channels(tf, w, case['raw_ts'], res)
         if case.get('threads') and not res.violations:
             res.violations += concurrent_file_reads(case, w, res)
+        if case.get('rewrite') and not res.violations:
+            # the documented copy recipe: the objects TdmsFile.read returned are handed to TdmsWriter.write_segment; what
+            # the read returned must still be what the stream encodes afterwards
+            import io
+            res.probe('objects-handed-to-the-writer')
+            try:
+                groups = tf.groups()
+                chans = [c for g in groups for c in g.channels() if w.chans.get(c.path) is not None
+                         and w.chans[c.path].type not in (None, 'daqmx')]
+                with lib.TdmsWriter(io.BytesIO()) as wr:
+                    wr.write_segment([lib.nptdms.RootObject(tf.properties)] + groups + chans)
+            except Exception as exc:
+                res.ev('rewrite-raises', type(exc).__name__)        # what the writer accepts is C07's / C10's business
+            vs = compare.check_structure(tf, w, case['raw_ts']) + compare_channels(tf, w, case['raw_ts'], res)
+            for v in vs:
+                v.detail = 'after the objects were handed to TdmsWriter.write_segment: %s' % (v.detail,)
+                v.sig['after_rewrite'] = True
+            res.violations += vs
         res.io_events = st.fs.seq
         res.steps = 1
         compare_faults = st.fs.faults_fired
@@ -201,6 +219,10 @@ def shrink_candidates(case):
     if case.get('threads'):
         c = dict(case)
         c['threads'] = None
+        yield c
+    if case.get('rewrite'):
+        c = dict(case)
+        c['rewrite'] = False
         yield c
     if case['short_seed'] is not None:
         c = dict(case)
